@@ -40,6 +40,12 @@ def generate(ctx):
     cases = []
     for i in range(ctx.budget(70, 1200)):
         spec = fs.gen_tree(rng, max_depth=rng.choice([1, 2, 3, 4]), fanout=rng.choice([2, 4, 6]), specials=(i % 3 != 0), big=(i % 4 == 0))
+        # directories that are empty only recursively (several chains of nested empty directories)
+        for k in range(rng.choice([0, 0, 1, 2, 3])):
+            node = {"t": "dir", "entries": []}
+            for lvl in range(rng.choice([1, 2, 3])):
+                node = {"t": "dir", "entries": [[hx(b"l%d" % lvl), node]]}
+            spec["entries"].append([hx(b"chain%d" % k), node])
         cases.append({"tree": spec, "slashes": rng.choice([0, 0, 1, 2, 3]), "relative": rng.random() < 0.3, "listing_seed": rng.randrange(2**31), "git": i % 3 == 0})
     return cases
 
@@ -132,6 +138,11 @@ def check_cases(ctx, cases):
                     ctx.count("cli")
                 except UnicodeEncodeError:
                     pass
+                # ignoring empty directories == the tree without (recursively) empty directories, by git's rules
+                d4 = Directory.from_disk(path=root, path_filter=from_disk.ignore_empty_directories)
+                want4 = fs.expected_ids(fs.prune_empty(spec))[b""][1]
+                if d4.hash != want4:
+                    ctx.fail(case, "ignoring empty directories does not give the id of the tree without its (recursively) empty directories", "ignore-empty-differs", {"impl": d4.hash.hex(), "want": want4.hex()})
                 # git itself, on the subset it can express
                 if case["git"] or ctx.tier == "thorough":
                     if fs.git_expressible(spec) and not any(p.split(b"/")[-1].lower().startswith(b".git") for p, _ in fs.walk(spec)):
